@@ -365,25 +365,30 @@ def grep_cli(ctx, syms):
             lines.append("foo " + (miss if body not in ("foo " + miss + " bar") else "") + " bar")
     if any(body in ln for i, ln in enumerate(lines) if i not in hit_lines):
         return
+    if (lead or trail) and not hit_lines:
+        # the text occurs, but not where the anchor wants it: still no match
+        lines[6] = "zz " + body + " zz"
     d = harness.new_project({"f.txt": "\n".join(lines) + "\n"})
     try:
-        import re as _re
-        # anchors in bumpver grep apply to the whole text (no MULTILINE): only assert unanchored patterns
-        if lead or trail:
-            return
+        # anchors mean the same for grep as for update (README: grep is there to test configuration entries,
+        # its first example entry is '^__version__ = "{version}"$'): start / end of a LINE
         res = harness.invoke(["grep", "--", pattern, "f.txt"], cwd=d)
         ctx.count("grep_cli_checks")
+        if lead or trail:
+            ctx.count("grep_cli_anchored_checks")
         if res.crash:
             ctx.violation("other:grep_crash", f"grep {pattern!r}: {res.crash}", case={"syms": syms})
             return
         if (res.exit_code == 0) != bool(hit_lines):
-            ctx.violation("other:grep_exit_code", f"grep {pattern!r}: exit {res.exit_code} with {len(hit_lines)} "
-                          f"matching lines", case={"syms": syms}, observed=res.brief())
+            ctx.violation("grep_anchor_is_not_per_line" if (lead or trail) else "other:grep_exit_code",
+                          f"grep {pattern!r}: exit {res.exit_code} with {len(hit_lines)} "
+                          f"matching lines (of 14)", case={"syms": syms}, observed=res.brief())
             return
         for i in hit_lines:
             want = f"{i + 1:>4}: {lines[i]}"
             if want not in res.stdout.split("\n"):
-                ctx.violation("other:grep_line_missing", f"grep {pattern!r}: line {want!r} not reported",
+                ctx.violation("grep_anchor_is_not_per_line" if (lead or trail) else "other:grep_line_missing",
+                              f"grep {pattern!r}: line {want!r} not reported",
                               case={"syms": syms}, observed=res.brief())
                 break
     finally:
